@@ -136,10 +136,25 @@ func (m *C01) OnPassEnd(e *scen.Env, pr driver.PassResult) {
 					writes = append(writes, r)
 				}
 			}
+			var s Obj
 			if lastRead == nil || lastRead.Err != nil || lastRead.Post == nil {
-				continue
+				// The pass wrote without ever having seen the object. If the only reads were answered by the label-filtered
+				// dynamic cache (which does not show objects of third parties), nothing told the pass that the object is absent:
+				// the decision is judged on what was stored when its first write arrived.
+				askedAPI := false
+				for _, r := range p.Requests {
+					if r.InStore() == store && r.Key == key && r.Verb == "get" && r.Role != "dyncache" {
+						askedAPI = true
+					}
+				}
+				if askedAPI || len(writes) == 0 || writes[0].Pre == nil || writes[0].Err != nil {
+					continue
+				}
+				e.Count("c01_blind_writes_on_existing_objects")
+				s = writes[0].Pre
+			} else {
+				s = lastRead.Post
 			}
-			s := lastRead.Post
 			if pkomodel.IsController(owner.Ref(), s, st) {
 				continue
 			}
